@@ -44,7 +44,7 @@ class Path:
 
 
 class State:
-    __slots__ = ("store", "variants", "events", "facts", "ids", "epoch", "member", "visits", "steps", "lenver", "moved", "slack", "lencount", "subs", "empty", "sumge", "roomx")
+    __slots__ = ("store", "variants", "events", "facts", "ids", "epoch", "member", "visits", "steps", "lenver", "moved", "slack", "lencount", "subs", "empty", "sumge", "roomx", "nonempty")
 
     def __init__(self):
         self.store = {}
@@ -64,6 +64,7 @@ class State:
         self.empty = {}
         self.sumge = {}
         self.roomx = {}
+        self.nonempty = {}
 
     def fork(self):
         s = State.__new__(State)
@@ -84,6 +85,7 @@ class State:
         s.empty = dict(self.empty)
         s.sumge = dict(self.sumge)
         s.roomx = dict(self.roomx)
+        s.nonempty = dict(self.nonempty)
         return s
 
     def fresh(self):
@@ -1027,8 +1029,19 @@ class Models:
                 xo = op if x is a else {"Lt": "Gt", "Gt": "Lt", "Le": "Ge", "Ge": "Le"}.get(op, op)
                 if (xo == "Eq" and truth) or (xo in ("Gt", "Ne") and not truth) or (xo == "Le" and truth):
                     Xmap = x[1]
+        # non-emptiness through the length: len(X) > c / len(X) != 0 / len(X) >= 1
+        for x, y, o in ((a, b, op), (b, a, {"Lt": "Gt", "Gt": "Lt", "Le": "Ge", "Ge": "Le"}.get(op, op))):
+            if isinstance(x, tuple) and x[0] == "len" and x[2] == st.lenver.get(x[1], 0):
+                oo = o if truth else {"Eq": "Ne", "Ne": "Eq", "Lt": "Ge", "Ge": "Lt", "Gt": "Le", "Le": "Gt"}[o]
+                cy = const_int(y)
+                if oo == "Gt" or (oo == "Ne" and cy == 0) or (oo == "Ge" and cy is not None and cy >= 1) or (oo == "Eq" and cy is not None and cy >= 1):
+                    if st.empty.get(x[1]) == x[2]:
+                        return True
+                    st.nonempty[x[1]] = x[2]
         if Xmap is None:
             return False
+        if st.nonempty.get(Xmap) == st.lenver.get(Xmap, 0):
+            return True      # the list was established non-empty through its length: its LRU end is not the sentinel
         st.empty[Xmap] = st.lenver.get(Xmap, 0)
         if len(Xmap[2]) < 2:
             return False
@@ -1522,6 +1535,8 @@ class Models:
                     outs.append((s2, NONE))
             elif kind == "contains_key":
                 s2.member[(X, ks)] = present
+                if present:
+                    s2.member[("node", X, ks)] = node
                 outs.append((s2, ("const", "bool", "1" if present else "0")))
         return outs
 
